@@ -8,6 +8,7 @@ import (
 
 	"context"
 
+	"github.com/freeconf/yang/fc"
 	"github.com/freeconf/yang/meta"
 	"github.com/freeconf/yang/val"
 )
@@ -267,7 +268,9 @@ func BuildConstraints(sel *Selection, params map[string][]string) error {
 	}
 	constraints := NewConstraints(sel.Constraints)
 	maxDepth := MaxDepth{MaxDepth: 64}
-	if n, found := findIntParam(params, "depth"); found {
+	if n, found, err := findIntParam(params, "depth"); err != nil {
+		return err
+	} else if found {
 		if n == 0 {
 			return errMaxDepthZeroNotAllowed
 		} else {
@@ -297,7 +300,9 @@ func BuildConstraints(sel *Selection, params map[string][]string) error {
 		}
 	}
 	maxNode := MaxNode{Max: 10000}
-	if n, found := findIntParam(params, "fc.max-node-count"); found {
+	if n, found, err := findIntParam(params, "fc.max-node-count"); err != nil {
+		return err
+	} else if found {
 		maxNode.Max = n
 	}
 	constraints.AddConstraint("fc.max-node-count", 10, 60, maxNode)
@@ -431,13 +436,15 @@ func endEditErr(endErr error, previous error) error {
 	return fmt.Errorf("error during endEdit: %w, previous error: %w", endErr, previous)
 }
 
-func findIntParam(params map[string][]string, param string) (int, bool) {
+func findIntParam(params map[string][]string, param string) (int, bool, error) {
 	if v, found := params[param]; found {
-		if n, err := strconv.Atoi(v[0]); err == nil {
-			return n, true
+		n, err := strconv.Atoi(v[0])
+		if err != nil || n < 0 {
+			return 0, false, fmt.Errorf("%w. '%s' is not a valid number for %s", fc.BadRequestError, v[0], param)
 		}
+		return n, true, nil
 	}
-	return 0, false
+	return 0, false, nil
 }
 
 // InsertInto Copy current node into given node.  If there are any existing containers of list
